@@ -482,8 +482,8 @@ func reachableBlocks(fn *ssa.Function, start int, cut map[edge]bool, blocked map
 // ifsOn returns the If instructions of fn whose condition is v (possibly through a chain of
 // negations), with the polarity: pol=true means succ[0] is taken when v is true.
 type condIf struct {
-	If  *ssa.If
-	Pol bool
+	If   *ssa.If
+	Pol  bool
 	Via  int       // 0: the If itself; i+1: the If of a φ-testing block as seen through its i-th incoming edge (ifsOnV)
 	Via2 int       // j+1: that predecessor merges a boolean value and was entered through its j-th edge
 	Val  ssa.Value // the tested value, negations stripped (the edge value for Via > 0)
